@@ -62,7 +62,28 @@ def small_subjects(tier):
     return out
 
 
-def drive_all(item, em=None):
+def use_model(em, code, p):
+    """Let the model object serve its other consumers on this (code, rate)
+    first: matching weights, a decoder that reads (and conditionally updates)
+    the channel, the sampler.  None of them may change what error_probability
+    reports afterwards."""
+    import contextlib
+    import io
+    with contextlib.redirect_stdout(io.StringIO()):
+        em.get_weights(code, p)
+        em.get_weights(code, p)
+        rng = np.random.default_rng(5)
+        e = np.asarray(em.generate(code, p, rng=rng)).ravel()
+        if 0 < p < 1:
+            for cu in (False, True):
+                dec = BeliefPropagationOSDDecoder(code, em, p, max_bp_iter=5, osd_order=0,
+                                                  channel_update=cu)
+                dec.decode(code.measure_syndrome(e))
+                dec.decode(code.measure_syndrome(e))
+        em.probability_distribution(code, p)
+
+
+def drive_all(item, em=None, used=False):
     name, size, dn, kw, chan = item
     code = codes.build(name, size)
     n = code.n
@@ -70,6 +91,8 @@ def drive_all(item, em=None):
         em, p = model_of(chan, dn, kw)
     else:
         p = sum(chan[1:]) / 10
+    if used:
+        use_model(em, code, p)
     N = 4 ** n
     scale = 10 ** n
     lin, logx = [], []
@@ -95,6 +118,13 @@ def drive_all(item, em=None):
 @common.safe
 def drive_all_safe(item):
     return drive_all(item)
+
+
+@common.safe
+def drive_used_safe(item):
+    r = drive_all(item, used=True)
+    r['_label'] += ' (after the model served get_weights / decoders / generate)'
+    return r
 
 
 SHARED_GROUPS = [
@@ -210,6 +240,11 @@ def run(tier):
         for chan in dict.fromkeys(chans):
             jobs.append((name, size, dn, kw, chan))
     recs = common.pmap(drive_all_safe, jobs, procs=15)
+    # the same model object after it has served its other consumers
+    ujobs = [j for j in jobs if j[4] in ((4, 3, 2, 1), (7, 1, 1, 1), (5, 1, 1, 3))]
+    if tier == 'quick':
+        ujobs = ujobs[::2]
+    recs += common.pmap(drive_used_safe, ujobs, procs=15)
     shared = []
     for gi, group in enumerate(SHARED_GROUPS):
         for chan in ((5, 1, 1, 3), (4, 3, 2, 1)) if tier == 'quick' else CHANS[:6]:
